@@ -390,6 +390,19 @@ field {fold_field:?} produced an invalid value when resolving @tag: {value:?}",
     }
 }
 
+/// The candidate values admitted by an ordering filter (`<`, `<=`, `>`, `>=`) against a tag's value.
+/// Ordering comparisons against `null` are never satisfied, so a `null` tag admits no candidates.
+fn ordering_candidate(
+    value: FieldValue,
+    make_range: impl FnOnce(FieldValue) -> Range<FieldValue>,
+) -> CandidateValue<FieldValue> {
+    if matches!(value, FieldValue::Null) {
+        CandidateValue::Impossible
+    } else {
+        CandidateValue::Range(make_range(value))
+    }
+}
+
 fn compute_candidate_from_operation<'vertex, Vertex: Debug + Clone + 'vertex>(
     operation: &Operation<(), ()>,
     initial_candidate: CandidateValue<FieldValue>,
@@ -410,48 +423,61 @@ fn compute_candidate_from_operation<'vertex, Vertex: Debug + Clone + 'vertex>(
         }
         Operation::LessThan(_, _) => {
             compute_candidate_from_tagged_value!(iterator, initial_candidate, candidate, value, {
-                candidate.intersect(CandidateValue::Range(Range::with_end(
-                    Bound::Excluded(value),
-                    true, // nullability is handled in the initial_candidate
-                )));
+                candidate.intersect(ordering_candidate(value, |value| {
+                    Range::with_end(
+                        Bound::Excluded(value),
+                        true, // nullability is handled in the initial_candidate
+                    )
+                }));
             })
         }
         Operation::LessThanOrEqual(_, _) => {
             compute_candidate_from_tagged_value!(iterator, initial_candidate, candidate, value, {
-                candidate.intersect(CandidateValue::Range(Range::with_end(
-                    Bound::Included(value),
-                    true, // nullability is handled in the initial_candidate
-                )));
+                candidate.intersect(ordering_candidate(value, |value| {
+                    Range::with_end(
+                        Bound::Included(value),
+                        true, // nullability is handled in the initial_candidate
+                    )
+                }));
             })
         }
         Operation::GreaterThan(_, _) => {
             compute_candidate_from_tagged_value!(iterator, initial_candidate, candidate, value, {
-                candidate.intersect(CandidateValue::Range(Range::with_start(
-                    Bound::Excluded(value),
-                    true, // nullability is handled in the initial_candidate
-                )));
+                candidate.intersect(ordering_candidate(value, |value| {
+                    Range::with_start(
+                        Bound::Excluded(value),
+                        true, // nullability is handled in the initial_candidate
+                    )
+                }));
             })
         }
         Operation::GreaterThanOrEqual(_, _) => {
             compute_candidate_from_tagged_value!(iterator, initial_candidate, candidate, value, {
-                candidate.intersect(CandidateValue::Range(Range::with_end(
-                    Bound::Included(value),
-                    true, // nullability is handled in the initial_candidate
-                )));
+                candidate.intersect(ordering_candidate(value, |value| {
+                    Range::with_end(
+                        Bound::Included(value),
+                        true, // nullability is handled in the initial_candidate
+                    )
+                }));
             })
         }
         Operation::OneOf(_, _) => {
             compute_candidate_from_tagged_value!(iterator, initial_candidate, candidate, value, {
-                let values = value
-                    .as_slice()
-                    .unwrap_or_else(|| {
-                        panic!(
-                            "\
+                if matches!(value, FieldValue::Null) {
+                    // `one_of` against a `null` list is never satisfied.
+                    candidate = CandidateValue::Impossible;
+                } else {
+                    let values = value
+                        .as_slice()
+                        .unwrap_or_else(|| {
+                            panic!(
+                                "\
 field {field_name} of type {field_type} produced an invalid value when resolving @tag: {value:?}",
-                        )
-                    })
-                    .to_vec();
-                candidate.intersect(CandidateValue::Multiple(values));
+                            )
+                        })
+                        .to_vec();
+                    candidate.intersect(CandidateValue::Multiple(values));
+                }
             })
         }
         _ => unreachable!("unsupported 'operation': {:?}", operation,),
